@@ -873,6 +873,33 @@ func genGraphHistory(r *core.Rand) core.Case {
 			lines = append(lines, []string{"cliques", "cliques", "paths", "len"}[r.Intn(4)])
 		}
 		lines = append(lines, "cliques")
+		// query → a change of the SAME graph that does not go through the methods of this value (a by-value
+		// copy of the struct, which shares the exported Nodes map; direct writes to that map) → query
+		for k := r.Range(0, 2); k > 0; k-- {
+			i, j := r.Intn(n), r.Intn(n)
+			a, b := label(i), label(j)
+			fresh := base + 90 + r.Intn(9)
+			if i == j || r.Chance(25) {
+				b = fresh
+			}
+			switch r.Intn(7) {
+			case 0:
+				lines = append(lines, fmt.Sprintf("cund %d %d", a, b))
+			case 1:
+				lines = append(lines, fmt.Sprintf("carc %d %d", a, b), fmt.Sprintf("carc %d %d", b, a))
+			case 2:
+				lines = append(lines, fmt.Sprintf("cnode %d", fresh))
+			case 3:
+				lines = append(lines, fmt.Sprintf("marc %d %d", a, b), fmt.Sprintf("marc %d %d", b, a), fmt.Sprintf("mnode %d", b))
+			case 4:
+				lines = append(lines, fmt.Sprintf("mnode %d", fresh))
+			case 5:
+				lines = append(lines, fmt.Sprintf("mdel %d", a))
+			default:
+				lines = append(lines, fmt.Sprintf("cund %d %d", a, b), fmt.Sprintf("mdel %d", label(r.Intn(n))))
+			}
+			lines = append(lines, []string{"cliques", "cliques", "paths", "len"}[r.Intn(4)], "cliques")
+		}
 	}
 	return core.Case{Lines: lines, Tag: "history"}
 }
@@ -1009,6 +1036,7 @@ func corpus() []core.Case {
 			"besto 4611686018427387905 4", "best 9223372036854775807 5", "besto 1 6"}},
 		// history on one Graph value: query, Init, rebuild with the same number of nodes and other labels
 		{Tag: "history", Lines: []string{"@ C18 graphh", "und 1 2", "und 2 3", "cliques", "paths", "init 4", "len", "cliques", "und 101 102", "node 103", "cliques", "len", "init 0", "node 7", "node 8", "node 9", "cliques", "und 7 9", "cliques"}},
+		{Tag: "history", Lines: []string{"@ C18 graphh", "und 1 2", "node 3", "cliques", "cund 2 3", "cliques", "cund 1 3", "cliques", "mdel 2", "cliques", "marc 3 4", "marc 4 3", "mnode 4", "cliques", "cnode 5", "len", "cliques", "carc 5 1", "carc 1 5", "cliques", "init 0", "mnode 7", "cliques"}},
 		{Tag: "history", Lines: []string{"@ C18 graphh", "node 1", "node 2", "paths", "init 2", "node 11", "node 12", "und 11 12", "cliques", "paths", "init 2", "arc 21 22", "und 21 22", "cliques"}},
 		// large: 18 / 33 unit-weight items with limits around the item count (a cell that is not
 		// the last one holds ≥ 17 items), 20 two-valued items for the solvers, a path and a cycle
